@@ -125,6 +125,19 @@ func setupRoutes(module *ast.Module, filePath string, forceInterpreter ...bool) 
 		}
 	}
 
+	// The same goes for functions the module declares: the VM can only call
+	// its built-ins, so a compiled route that calls `! f(...)` fails at
+	// request time with "undefined function: f" while the interpreter runs it.
+	if useCompiler {
+		for _, item := range module.Items {
+			if _, ok := item.(*ast.Function); ok {
+				printInfo("Module declares functions, using interpreter mode")
+				useCompiler = false
+				break
+			}
+		}
+	}
+
 	// Warn early when an LLM route has no provider configured, rather than
 	// letting every request fail with an opaque "undefined object" error.
 	if os.Getenv("GLYPH_LLM_PROVIDER") == "" && moduleInjectsLLM(module) {
